@@ -57,7 +57,8 @@ SPEC['C05'] = ('Hidden dependencies are always detected', ['Local', 'History', '
   ('C05_write_rejected_before_modification', 'Local', 'sess_write_rejected', 'a diagnosed Context::write aborts before the resource is modified'),
   ('C05_final_store_refuted', 'Findings', 'C05_final_store_refuted', 'recorded finding (O6): the "Hence" clause fails when an intermediate task drops its require but keeps its output'),
 ], 'Detection is proved at the operation level for all worlds; the "Hence" clause is a recorded finding.')
-SPEC['C06'] = ('Overlapping writes are always detected', ['Local', 'History', 'NoBug4All'], [
+SPEC['C06'] = ('Overlapping writes are always detected', ['Local', 'History', 'NoBug4All', 'ResetWriter'], [
+  ('C06_reexecuted_writer_is_not_its_own_overlap', 'ResetWriter', 'reset_task_clears_own_writes', '"re-execution of the same writer, however it is reached, is never reported as an overlap": every execution starts with reset_task; in every world satisfying the store invariant (every reachable world) the task is afterwards not a recorded writer of ANY resource, so an overlap its writes meet names a different task -- also when its previous execution was aborted after the write'),
   ('C06_store_invariant_every_reachable_state', 'NoBug4All', 'history_no_bug4', 'UNCONDITIONAL form of the next theorem: for ALL programs, checkers, fuel and ALL histories (edits, environment switches, sessions of top-down requires and bottom-up builds in any mix, completed or aborted) no session ends with the model-only "node missing / search fuel" error, and the store reached is a well-formed acyclic graph with gap-free ranks, typed edges and at most one recorded writer per resource'),
   ('C06_store_invariant_all_histories', 'History', 'reachable_store_ok', 'for ALL programs, checkers, fuel and histories (edits, sessions of requires and bottom-up builds, including worlds left by aborts): the store is a well-formed DAG, well typed, with at most one recorded writer per resource'),
   ('C06_single_writer', 'History', 'store_single_writer', 'hence two recorded writers of one resource are the same task'),
